@@ -316,7 +316,14 @@ func (s *socket) onDrain() {
 func (s *socket) MaybeUpgrade(transport transports.Transport) {
 	socket_log.Debug(`might upgrade socket transport from "%s" to "%s"`, s.Transport().Name(), transport.Name())
 
-	s.upgrading.Store(true)
+	// at most one candidate at a time: the server tests Upgrading() before
+	// calling us, but two upgrade requests can both pass that test; only the
+	// one that wins this transition is entertained, the other is closed
+	if !s.upgrading.CompareAndSwap(false, true) {
+		socket_log.Debug("transport has already been trying to upgrade")
+		transport.Close()
+		return
+	}
 
 	var check, cleanup func()
 	var onPacket, onError, onTransportClose, onClose events.Listener
